@@ -714,7 +714,10 @@ func persistMain(args mon.Args) {
 	run.Add("sigkill_cycles", int64(kills))
 	run.Add("sigkill_cycles_that_left_a_partial_file", killLeft)
 	run.Set("shard_probe_keys", len(probes))
-	run.SetRule("caches built by decoding generated announcements (1..40 templates quick, ..2000 thorough; plain/options, IPv4/mapped/IPv6 exporters; ipfix and netflow v9). Faults enumerated: EVERY prefix length of the dump file (every crash point of truncate-then-write; stride above 64 KiB), real SIGKILLs of a process dumping in a loop, ~70 single structural edits of the valid document (shards dropped/null/wrong type, Templates null/[]/{}, Cache null/[]/31/33 entries, ShardNo absent/0/31/33/-1/'32'/2^40, entry-level edits, duplicated members, whole-document forms), absent file, seeded byte-level flips/inserts/deletes. Oracles per load: GetCache does not panic; the loaded cache re-dumped holds only entries equal to saved ones (prefix/structural faults); every saved key decodes as before or is unknown; announce+decode works on all 32 shards (64 probe keys, two per shard, chosen by harness-side FNV) and Dump works afterwards; the unmodified file round-trips every key; save histories on one file (larger→smaller, smaller→larger, equal, several steps) must load back as exactly the cache saved last. distinct = (kind, position/edit)")
+	if args.Replay == "" {
+		crossProcessHistories(run, snap, "persist:xproc", run.Pick(60, 1000))
+	}
+	run.SetRule("caches built by decoding generated announcements (1..40 templates quick, ..2000 thorough; plain/options, IPv4/mapped/IPv6 exporters; ipfix and netflow v9). Faults enumerated: EVERY prefix length of the dump file (every crash point of truncate-then-write; stride above 64 KiB), real SIGKILLs of a process dumping in a loop, ~70 single structural edits of the valid document (shards dropped/null/wrong type, Templates null/[]/{}, Cache null/[]/31/33 entries, ShardNo absent/0/31/33/-1/'32'/2^40, entry-level edits, duplicated members, whole-document forms), absent file, seeded byte-level flips/inserts/deletes. Oracles per load: GetCache does not panic; the loaded cache re-dumped holds only entries equal to saved ones (prefix/structural faults); every saved key decodes as before or is unknown; announce+decode works on all 32 shards (64 probe keys, two per shard, chosen by harness-side FNV) and Dump works afterwards; the unmodified file round-trips every key; save histories on one file (larger→smaller, smaller→larger, equal, several steps) must load back as exactly the cache saved last; 60-1000 exporter histories are cut at 1-3 points and every part runs in a process of its own on the cache file its predecessor saved (a real restart), with records and unknown-template reports predicted as for an uninterrupted history. distinct = (kind, position/edit)")
 	run.Assume("a byte flip inside a digit legitimately yields a different template: byte-level corruptions are judged for 'no crash, still usable' only")
 	run.Finish()
 }
